@@ -315,7 +315,17 @@ def index_role(e, idxvar, valvar, listname):
 
 def B3_reembed(rep, flow: Flow):
     rep.rule("B3", "re-embedding: factor j of the m-qubit Pauli (position in the measured list) is written to register position qubits[j]", floor=1)
-    f = flow.prog.func(A_FITTER)
+
+    def has_reembed_loop(g):
+        for x in ast.walk(g.node):
+            if isinstance(x, ast.For) and isinstance(x.iter, ast.Call) and isinstance(x.iter.func, ast.Name) and x.iter.func.id in ("enumerate", "range"):
+                if any(isinstance(st, ast.Assign) and isinstance(st.targets[0], ast.Subscript) and isinstance(st.value, ast.Subscript) for st in x.body):
+                    return True
+        return False
+    cands = _find_in_tomo(flow, has_reembed_loop)
+    if not cands:
+        raise AnalysisError(f"{TOMO}: no re-embedding loop (subscript store from a subscript inside a loop over the measured qubits) found (anchor vanished)")
+    f = cands[0]
     n = 0
     for loop in [x for x in ast.walk(f.node) if isinstance(x, ast.For)]:
         it = loop.iter
@@ -326,8 +336,6 @@ def B3_reembed(rep, flow: Flow):
                 isinstance(it.args[0].func, ast.Name) and it.args[0].func.id == "len" and isinstance(it.args[0].args[0], ast.Name) and isinstance(loop.target, ast.Name):
             idxvar, valvar, listname = loop.target.id, None, it.args[0].args[0].id
         else:
-            continue
-        if listname != "qubits":
             continue
         for st in loop.body:
             if isinstance(st, ast.Assign) and len(st.targets) == 1 and isinstance(st.targets[0], ast.Subscript) and isinstance(st.value, ast.Subscript):
@@ -606,8 +614,10 @@ def W3_indexing(rep, flow: Flow):
     stored = [n for n in ast.walk(init.node) if isinstance(n, ast.Assign) and isinstance(n.targets[0], ast.Attribute) and isinstance(n.value, ast.Name) and n.value.id == "result_index"]
     fit = flow.prog.func(A_FITTER)
     attr = stored[0].targets[0].attr if stored else None
-    used = [n for n in ast.walk(fit.node) if isinstance(n, ast.Subscript) and isinstance(n.slice, ast.Attribute) and n.slice.attr == attr]
-    gc = [n for n in ast.walk(fit.node) if isinstance(n, ast.Call) and isinstance(n.func, ast.Attribute) and n.func.attr == "get_counts"]
+    # anywhere in the fitter class (the selection may live in a helper method)
+    nodes = [fit.node] + ([mm.node for mm in fit.cls.methods.values()] if fit.cls is not None else [])
+    used = [n for nd in nodes for n in ast.walk(nd) if isinstance(n, ast.Subscript) and isinstance(n.slice, ast.Attribute) and n.slice.attr == attr]
+    gc = [n for nd in nodes for n in ast.walk(nd) if isinstance(n, ast.Call) and isinstance(n.func, ast.Attribute) and n.func.attr == "get_counts"]
     if attr and (used or any(n.args or n.keywords for n in gc)):
         rep.ok("W3", 1, nontrivial="use", sample=f"counts[self.{attr}]")
     else:
@@ -729,10 +739,18 @@ def S3_normalisation(rep, flow: Flow):
         if isinstance(st, ast.Return) and isinstance(st.value, ast.BinOp) and isinstance(st.value.left, ast.Name) and st.value.left.id == mat and isinstance(st.value.op, (ast.Mult, ast.Div)):
             factor_nodes.append((st, st.value.op, st.value.right))
     bad = None
+    simple = [st for st in f.node.body if isinstance(st, ast.Assign) and isinstance(st.targets[0], ast.Name) and st not in nqs
+              and all(isinstance(x, (ast.BinOp, ast.Constant, ast.Name, ast.operator, ast.Load, ast.UnaryOp, ast.unaryop)) for x in ast.walk(st.value))]
     for n in range(2, 7):
         fac = 1.0
+        env = {nq: n} if nq else {}
+        for st in simple:
+            try:
+                env[st.targets[0].id] = ce.ev(st.value, env, f)
+            except (AnalysisError, consteval.CERaise, KeyError):
+                pass
         for (st, op, val) in factor_nodes:
-            v = ce.ev(val, {nq: n} if nq else {}, f)
+            v = ce.ev(val, env, f)
             fac = fac * v if isinstance(op, ast.Mult) else fac / v
         if abs(fac - 2.0 ** (-n)) > 1e-15:
             bad = (n, fac)
@@ -821,8 +839,11 @@ def W1_W2_builders(rep, flow: Flow, want=("W1", "W2"), builders=None):
 
 def W11_fitter_uses_list(rep, flow: Flow):
     rep.rule("W11", "the fitter marginalises the counts onto the qubit list stored by the builder: the counts parser is constructed with the record's qubit field (not None, not another list)", floor=1)
-    f = flow.prog.func(A_FITTER)
     parser_cls = A_COUNTS_PARSER.split(".")[1]
+    cands = _find_in_tomo(flow, lambda g: any(isinstance(c, ast.Call) and isinstance(c.func, ast.Name) and c.func.id == parser_cls for c in ast.walk(g.node)))
+    if not cands:
+        raise AnalysisError(f"{TOMO}: the counts parser {parser_cls} is constructed nowhere (anchor vanished)")
+    f = cands[0]
     init = flow.prog.func(A_COUNTS_PARSER)
     lists = [a.arg for a in init.node.args.args if (a.annotation is not None and "Sequence" in ast.unparse(a.annotation)) or a.arg == "qubits"]
     lp = lists[0] if lists else None
